@@ -35,7 +35,9 @@ pub struct Failure {
 }
 
 /// extra per-step oracle (C10/C11/C12 plug in here); returns violations
-pub type ExtraOracle = fn(&World, &World, &TraceOp, &StepInfo, &mut Stats) -> Vec<Violation>;
+pub type ExtraOracle = fn(&World, &mut World, &TraceOp, &StepInfo, &mut Stats) -> Vec<Violation>;
+/// re-attribution of a violation found by the shared engine to the property under check
+pub type Claim = fn(&Violation, &Op, &World, &StepInfo) -> Option<Violation>;
 
 pub struct ForestCfg {
     pub property: &'static str,
@@ -44,6 +46,12 @@ pub struct ForestCfg {
     pub shape: fn(&mut Profile, &mut Rng),
     /// enumerate every (operation, argument tuple) at sampled states
     pub enumerate_every: u64,
+    /// violations of other properties that this property also claims (e.g. a
+    /// model mismatch after a map update is a C11 violation)
+    pub claim: Option<Claim>,
+    /// execute every call both on the store itself and on a `Xot::clone` of it
+    /// and require identical results (C12: the clone is an independent, equal store)
+    pub fork_check: bool,
 }
 
 pub fn no_shape(_p: &mut Profile, _r: &mut Rng) {}
@@ -60,22 +68,32 @@ struct Client {
 
 /// judge one executed step for the property under check
 fn judge(
-    property: &str,
+    cfg: &ForestCfg,
+    op: &Op,
+    pre: &World,
     info: &StepInfo,
     extra: Vec<Violation>,
     known: &KnownFile,
     stats: &mut Stats,
 ) -> Option<Violation> {
+    let property = cfg.property;
     for v in info.violations.iter().chain(extra.iter()) {
-        if v.property != property {
-            stats.inc(&format!("other_property_violation/{}:{}", v.property, v.class));
-            continue;
-        }
+        let v = if v.property != property {
+            match cfg.claim.and_then(|c| c(v, op, pre, info)) {
+                Some(v2) => v2,
+                None => {
+                    stats.inc(&format!("other_property_violation/{}:{}", v.property, v.class));
+                    continue;
+                }
+            }
+        } else {
+            v.clone()
+        };
         if let Some(f) = known.matches(v.property, v.class, &info.cell, &v.msg) {
             stats.inc(&format!("known_finding_hits/{}", f.id));
             continue;
         }
-        return Some(v.clone());
+        return Some(v);
     }
     None
 }
@@ -87,16 +105,81 @@ fn exec(
     known: &KnownFile,
     stats: &mut Stats,
 ) -> (StepInfo, Option<Violation>) {
-    let pre = if cfg.extra.is_some() { Some(w.clone()) } else { None };
-    let scfg = StepCfg { string_values: cfg.property == "C05" };
-    let info = engine::step(w, t.sid, &t.op, &scfg);
+    let pre = w.clone();
+    let scfg = StepCfg { string_values: cfg.property == "C05", keep_failed: cfg.claim.is_some() };
+    let mut fork_violation: Option<Violation> = None;
+    let info = if cfg.fork_check {
+        // the original store is mutated in place, a fork of it executes the same call
+        let fork = w.clone();
+        let orig = std::mem::replace(w, World::new());
+        // (World::new() creates hash tables and draws seeds: read the stream after it)
+        let hs = hashseam::get();
+        let (res_o, info_o) = engine::step_owned(orig, &pre, t.sid, &t.op, &scfg);
+        let hs_after = hashseam::get();
+        if trace_on() { eprintln!("fork: hs={:x} after orig={:x} draws={}", hs, hs_after, hashseam::draws()); }
+        hashseam::reseed(hs);
+        let (res_f, info_f) = engine::step_owned(fork, &pre, t.sid, &t.op, &scfg);
+        if trace_on() { eprintln!("fork: after fork={:x} draws={}", hashseam::get(), hashseam::draws()); }
+        hashseam::reseed(hs_after);
+        stats.inc("fault/store_fork_executed_in_parallel");
+        let mut diff: Option<String> = None;
+        if info_o.outcome != info_f.outcome || info_o.err_text != info_f.err_text {
+            diff = Some(format!(
+                "original: {} {}, clone: {} {}",
+                info_o.outcome, info_o.err_text, info_f.outcome, info_f.err_text
+            ));
+        } else if info_o.violations != info_f.violations {
+            diff = Some(format!(
+                "original violations {:?}, clone violations {:?}",
+                info_o.violations.iter().map(|v| (v.property, v.class)).collect::<Vec<_>>(),
+                info_f.violations.iter().map(|v| (v.property, v.class, v.msg.clone())).collect::<Vec<_>>()
+            ));
+        } else if let (Some(a), Some(b)) = (&res_o, &res_f) {
+            if a.model.canon_forest() != b.model.canon_forest() {
+                diff = Some(format!("forests differ after the call: original {} | clone {}", a.model.canon_forest(), b.model.canon_forest()));
+            } else if a.serialise_roots() != b.serialise_roots() {
+                diff = Some("serialisations differ after the call".to_string());
+            }
+        }
+        if let Some(d) = diff {
+            fork_violation = Some(Violation::new(
+                "C12",
+                "fork-differs",
+                format!("{} behaves differently on a clone of the store: {}", t.op.name(), d),
+            ));
+        }
+        // the copy taken before must not have been affected by either execution
+        let mut p2 = pre.clone();
+        if let Err(v) = p2.compare_with_model(None, None) {
+            fork_violation = Some(Violation::new(
+                "C12",
+                "fork-differs",
+                format!("a store cloned before {} does not read back as before: {}", t.op.name(), v.msg),
+            ));
+        }
+        match res_o {
+            Some(n) => *w = n,
+            None => *w = pre.clone(),
+        }
+        info_o
+    } else {
+        engine::step(w, t.sid, &t.op, &scfg)
+    };
     let mut extra = vec![];
-    if let (Some(f), Some(pre)) = (cfg.extra, pre.as_ref()) {
-        if info.violations.is_empty() && info.outcome != "skipped" {
-            extra = f(pre, w, t, &info, stats);
+    if let Some(fv) = fork_violation {
+        extra.push(fv);
+        *w = pre.clone();
+    }
+    if let Some(f) = cfg.extra {
+        if info.violations.is_empty() && extra.is_empty() && info.outcome != "skipped" {
+            extra = f(&pre, w, t, &info, stats);
+            if !extra.is_empty() {
+                // the step is not committed when the property's own oracle objects
+                *w = pre.clone();
+            }
         }
     }
-    let v = judge(cfg.property, &info, extra, known, stats);
+    let v = judge(cfg, &t.op, &pre, &info, extra, known, stats);
     (info, v)
 }
 
